@@ -10,8 +10,13 @@ CFG = dict(
           "Crashed, one cleaner pass removes exactly the connections idle >= timeout and closes their done channel, blocked "
           "Read/Write/parked request only under the stated conditions (C19_http_*); no refusal depends on size: the encoding of "
           "every canonical envelope with a mappable source, whatever the length of its body, is classified 'deliver' and never "
-          "answered 400 (C19_http_accepts_every_envelope, C19_http_never_400_on_envelope). The protobuf wire format of the Rpc schema is "
-          "modelled byte by byte (Model/WireFormat.v) with the proved round trip C19_wire_roundtrip: forall e, wf e -> decode "
+          "answered 400 (C19_http_accepts_every_envelope, C19_http_never_400_on_envelope); the SENDER half (httpReadWriter.Write) linked to a receiving "
+          "instance (Model/HttpLink.v): a request is answered 200 only with its delivery (C19_http_200_delivered), a Write that returns nil was "
+          "handed to the peer's ServeHTTP as exactly one request whose body is the encoded envelope, answered 200 and read there equal "
+          "(C19_http_write_nil, C19_http_write_nil_read), and the writes of a sequential writer are delivered in write order "
+          "(C19_http_write_order). The protobuf wire format of the Rpc schema is "
+          "modelled byte by byte (Model/WireFormat.v; its decoder's fuel is proved sufficient for every input: C19_decode_fuel_enough, "
+          "C19_skip_groups_fuel_enough) with the proved round trip C19_wire_roundtrip: forall e, wf e -> decode "
           "(encode e) = Some e, which retires the codec assumption: C19_ws_end_to_end / C19_http_end_to_end state that what is "
           "written is what is read, in order. Every run drives the real NewGoatOverChannel, goatOverWebsocket (over coder/websocket "
           "on an in-memory byte stream) and GoatOverHttp (ServeHTTP + clockwork fake clock) lock-step in synctest bubbles and the "
@@ -31,7 +36,8 @@ CFG = dict(
               "C19_http_no_crash", "C19_http_idle", "C19_http_blocked_read", "C19_http_parked_request",
               "C19_http_blocked_write", "C19_http_cleaner_settled", "C19_http_end_to_end",
               "C19_http_accepts_every_envelope", "C19_http_never_400_on_envelope",
-              "C19_http_200_delivered", "C19_http_write_nil", "C19_http_write_nil_read", "C19_http_write_order"],
+              "C19_http_200_delivered", "C19_http_write_nil", "C19_http_write_nil_read", "C19_http_write_order",
+              "C19_decode_fuel_enough", "C19_skip_groups_fuel_enough"],
     imports=["Base.Bytes", "Model.WireFormat", "Model.Transports", "Model.HttpLink", "Check.C19c"],
     case_type="c19case", find_bad_from="find_bad_from",
     rigs=[dict(test="TestC19Wire", timeout_quick=300, timeout_thorough=1200),
